@@ -473,13 +473,36 @@ class MultiTan(_TileStage):
         if fail is not None:
             imgs[fail[0]].__class__ = failing_image_class(self.fail_exc)  # first thing the worker asks of an image raises
         pio = PyramidIO(root, default_format=self.fmt)
+
+        def collection():
+            if not getattr(self, "from_files", False):
+                return ListCollection(imgs)
+            # the inputs as FITS files of one shape and type, read through toasty's own collection with a blank
+            # value (what `--blankval` gives): the loader's buffers are then part of what is explored
+            from toasty import collection as _coll
+
+            if getattr(self, "_paths", None) is None:
+                import atexit
+                from astropy.io import fits
+
+                d = tempfile.mkdtemp(prefix="verif-mtin-", dir=scratch_root())
+                atexit.register(shutil.rmtree, d, True)
+                self._paths = []
+                for i, im in enumerate(tan_images(self.nimg)):
+                    a = np.array(im.asarray())
+                    a[:, 0] = -999.0
+                    pth = os.path.join(d, "in%d.fits" % i)
+                    fits.PrimaryHDU(a, header=im.wcs.to_header()).writeto(pth, overwrite=True)
+                    self._paths.append(pth)
+            return _coll.load(list(self._paths), blankval=-999.0)
+
         if getattr(self, "_tmpl", None) is None:
-            proc = MultiTanProcessor(ListCollection(imgs))
+            proc = MultiTanProcessor(collection())
             with quiet():
                 proc.compute_global_pixelization(Builder(pio))
             self._tmpl = proc
         proc = copy.copy(self._tmpl)
-        proc._collection = ListCollection(imgs)
+        proc._collection = collection()
         mon = DeliveryMonitor()
         W = self.W
 
@@ -530,12 +553,18 @@ class MultiWcs(_TileStage):
         mon = DeliveryMonitor()
         W = self.W
 
+        rp = _fake_reproject
+        if getattr(self, "closure_reproject", False):
+            # a reprojection function defined on the spot (cannot be pickled; fork inherits it all the same)
+            scale = 1.0
+            rp = lambda *a, **k: _fake_reproject(*a, **k) * scale  # noqa: E731
+
         def main():
             if W == 1:
-                proc._tile_parallel(pio, _fake_reproject, False, 1)
+                proc._tile_parallel(pio, rp, False, 1)
                 pio.clean_lockfiles(proc._tiling._tile_levels)
             else:
-                proc.tile(pio, _fake_reproject, parallel=W)
+                proc.tile(pio, rp, parallel=W)
 
         return self.with_foreign_child(main), mon, root
 
@@ -592,6 +621,8 @@ def explore_to_part(cfg, prop, max_wall=None):
             "%s: every schedule with at most %d departures from the default order (keep running the process that moved last) explored; "
             "termination analysis needs the full graph and was not run for this configuration" % (cfg.name, res.deviation_bound)
         )
+    if res.counters.get("executions_cut_at_the_horizon"):
+        part.notes.append("%s: executions were cut after %s steps (horizon); nothing is claimed beyond that point" % (cfg.name, getattr(cfg, "horizon_steps", "?")))
     if not res.exhaustive:
         part.count("configurations_not_exhausted")
         part.notes.append("%s: budget hit at %d states (not exhaustive)" % (cfg.name, res.states))
